@@ -181,7 +181,12 @@ def program_physical(arg: dict) -> list[dict]:
 def legacy_runs(arg: dict) -> list[dict]:
     """rom_to_snes over a range of offsets, as affine runs, plus snes_to_rom of each result."""
     from a816.cpu.cpu_65c816 import RomType, rom_to_snes, snes_to_rom
+    from a816.symbols import Resolver
     mode = {"low": RomType.low_rom, "low2": RomType.low_rom_2, "high": RomType.high_rom}[arg["mode"]]
+    # the mapping the assembler uses in this mode: the file offset it gives the converted address
+    rs = Resolver()
+    rs.rom_type = mode
+    bus = rs.get_bus()
     segs = []
     cur = None
     for o in range(arg["start"], arg["end"] + 1):
@@ -190,14 +195,19 @@ def legacy_runs(arg: dict) -> list[dict]:
         except Exception:   # the conversions are total on the 4 MiB space: an exception is an observation
             a = -(1 << 30)
         try:
+            ph = bus.get_address(a).physical
+            pd = (ph - o) if ph is not None else (1 << 29)        # None: not ROM for the bus
+        except Exception:
+            pd = 1 << 30                                            # unmapped for the bus
+        try:
             back = snes_to_rom(a) if a >= 0 else -(1 << 30)
         except Exception:
             back = -(1 << 30)
         d = back - o if back >= 0 else 1
-        if cur is not None and a == cur["snes"] + (o - cur["start"]) and d == cur["back_delta"]:
+        if cur is not None and a == cur["snes"] + (o - cur["start"]) and d == cur["back_delta"] and pd == cur["phys_delta"]:
             cur["end"] = o
         else:
-            cur = {"t": "r2s", "mode": arg["mode"], "start": o, "end": o, "snes": a, "back_delta": d}
+            cur = {"t": "r2s", "mode": arg["mode"], "start": o, "end": o, "snes": a, "back_delta": d, "phys_delta": pd}
             segs.append(cur)
     return segs
 
@@ -506,6 +516,9 @@ def asm_prog(arg: dict) -> dict:
 # sessions (C19)
 # ------------------------------------------------------------------------------------------
 _IPS = [80, 65, 84, 67, 72, 0x00, 0x12, 0x34, 0, 3, 1, 2, 3, 0x01, 0x80, 0x00, 0, 1, 9, 69, 79, 70]
+# five records, two of them overlapping (the order in which they reach the writer is observable)
+_IPS5 = ([80, 65, 84, 67, 72] + [0x00, 0x12, 0x34, 0, 3, 1, 2, 3] + [0x01, 0x80, 0x00, 0, 1, 9] + [0x00, 0x12, 0x35, 0, 2, 7, 8]
+         + [0x02, 0x00, 0x10, 0, 0, 0, 4, 0xEE] + [0x00, 0x40, 0x00, 0, 2, 5, 6] + [69, 79, 70])
 SESSION_SOURCES = {
     "valid": {"src": "*=0x008000\nstart:\nlda.w #0x1234\nloop:\ndex\nbne loop\n.dl start, loop\n"},
     "macros": {"src": "*=0x008000\n.macro m(x) {\nlocal:\n.db x\n.dw local\n}\n.macro helper() {\n.db 0xEE\n}\nm(1)\nm(2)\nhelper()\n"},
@@ -536,7 +549,21 @@ SESSION_SOURCES = {
     "p_bank": {"src": "*=0x018000\nhere:\n.dl here\n@=0x7e2000\nr:\n.dl r\n*=0x00FFFE\nedge:\n.dl edge\nnext:\n.dl next\n*=0x410000\n.db 1\n"},
     "p_incbinB": {"src": "*=0x008000\n.incbin 'blob.bin'\nafter:\n.dl blob_bin, blob_bin__size, after\n",
                   "files": {"blob.bin": {"bytes": [(3 * j + 1) % 256 for j in range(37)]}}},
-    "p_ipsB": {"src": "*=0x008000\n.db 1\n.include_ips 'p.ips', 0\n.db 2\n", "files": {"p.ips": {"bytes": _IPS}}},
+    "p_ipsB": {"src": "*=0x008000\n.db 1\n.include_ips 'p.ips', 0\n.db 2\n", "files": {"p.ips": {"bytes": _IPS5}}},
+    # the same table path as "table", other contents
+    "tableB": {"src": "*=0x008000\n.table 't.tbl'\n.text 'abba'\n", "files": {"t.tbl": {"text": "11=a\n12=b\n"}}},
+    "p_tableC": {"src": "*=0x008000\n.table 't.tbl'\n.text 'abba'\nend:\n.dl end\n", "files": {"t.tbl": {"text": "21=b\n2223=a\n24=bb\n"}}},
+    # file API from other directories (the working directory stays put): includes are looked up from the working directory
+    "fileA": {"entry": "file", "main": "dirA/main.s",
+              "files": {"dirA/main.s": {"text": "*=0x008000\n.include 'defs.s'\n.db val\n"}, "dirA/defs.s": {"text": "val = 1\n"}}},
+    "fileB": {"entry": "file", "main": "dirB/main.s",
+              "files": {"dirB/main.s": {"text": "*=0x008000\n.db 0xB0\nlabelb:\n.dl labelb\n"}, "dirB/defs.s": {"text": "val = 2\n"},
+                        "dirB/only_b.s": {"text": "bval = 3\n.db 0xBB\n"}}},
+    "p_fileA": {"entry": "file", "main": "dirA/main.s",
+                "files": {"dirA/main.s": {"text": "*=0x008000\n.include 'defs.s'\n.db val\n"}, "dirA/defs.s": {"text": "val = 1\n"}}},
+    "p_fileC": {"entry": "file", "main": "dirC/main.s",
+                "files": {"dirC/main.s": {"text": "*=0x008000\n.db 0xC0\n.include 'only_b.s'\n.db bval\n"}}},
+    "p_fileD": {"entry": "file", "main": "dirD/main.s", "files": {"dirD/main.s": {"text": "*=0x018000\nd:\n.dl d\n{\nd:\n.dw d\n}\n"}}},
     "p_map": {"src": ".map identifier=1 bank_range=0x00, 0x1f addr_range=0x8000, 0xffff mask=0x8000 mirror_bank_range=0x80, 0x9f\n"
                      "*=0x018000\nhere:\n.dl here\n*=0x818000\nmir:\n.dl mir\n"},
 }
@@ -596,6 +623,26 @@ def global_projection() -> dict:
     return g
 
 
+def _file_assembly(s: dict) -> dict:
+    """Program.assemble on a file in a sub-directory of the scratch working directory: status and output file."""
+    from a816.program import Program
+    write_files(s["files"])
+    out = {"ok": False, "err": "", "calls": [], "labels": []}
+    try:
+        if os.path.exists("out.sfc"):
+            os.remove("out.sfc")
+        p = Program()
+        st = p.assemble(s["main"], "out.sfc")
+        out["ok"] = st == 0
+        if st == 0:
+            with open("out.sfc", "rb") as fh:
+                out["calls"] = [[0, list(fh.read())]]
+            out["labels"] = [[n, v] for n, v in p.resolver.get_all_labels()]
+    except BaseException as e:  # noqa: BLE001
+        out["err"] = type(e).__name__
+    return out
+
+
 def _session_child(ids) -> dict:
     try:
         import a816.program  # noqa: F401  (import everything before the first projection)
@@ -605,7 +652,10 @@ def _session_child(ids) -> dict:
         steps = []
         for sid in ids:
             s = SESSION_SOURCES[sid]
-            o = assemble({"src": s["src"], "files": s.get("files"), "rom": s.get("rom")})
+            if s.get("entry") == "file":
+                o = _file_assembly(s)
+            else:
+                o = assemble({"src": s["src"], "files": s.get("files"), "rom": s.get("rom")})
             import re
             # default object reprs carry a memory address: not part of the error's meaning
             err = re.sub(r" object at 0x[0-9a-fA-F]+>", " object at 0x?>", o["err"] or "")
@@ -623,6 +673,24 @@ def session_history(arg: dict) -> dict:
     import json
     import select
     import signal
+    if arg.get("hashseed") is not None:
+        # a really fresh interpreter, with its own string-hash seed
+        import subprocess
+        wd = _workdir()
+        here = os.path.dirname(os.path.dirname(os.path.abspath(__file__)))
+        env = dict(os.environ)
+        env["PYTHONHASHSEED"] = str(arg["hashseed"])
+        env["PYTHONPATH"] = here + os.pathsep + REPO
+        code = ("import json,sys; from harness import drivers; "
+                "print('RESULT:' + json.dumps(drivers._session_child(json.loads(sys.argv[1]))))")
+        try:
+            p = subprocess.run([sys.executable, "-c", code, json.dumps(arg["ids"])], capture_output=True, text=True, timeout=90, env=env, cwd=wd)
+        except subprocess.TimeoutExpired:
+            return {"hang": True}
+        line = next((ln for ln in p.stdout.splitlines() if ln.startswith("RESULT:")), None)
+        if line is None:
+            return {"driver_error": "fresh interpreter produced no result: " + (p.stderr or "")[-500:]}
+        return json.loads(line[7:])
     r, w = os.pipe()
     pid = os.fork()
     if pid == 0:
@@ -869,7 +937,12 @@ def errloc_case(arg: dict) -> dict:
     files = {}
     if arg["part"]:
         files["part.s"] = {"text": "\n".join(arg["part"]) + nl}
-    o = assemble({"src": main, "files": files, "filename": "main.s"})
+    if arg.get("entry") == "file":
+        # the file API: the error goes to the log (or is raised)
+        fe = run_entry({"entry": "assemble", "src": main, "files": files, "asm_name": "main.s", "format": "sfc"})
+        o = {"ok": fe["status"] == 0 and not fe["raised"], "err": (fe.get("log") or "") + "\n" + (fe.get("err") or "")}
+    else:
+        o = assemble({"src": main, "files": files, "filename": "main.s"})
     err = o["err"] or ""
     # tolerant extraction of (file, line[, column]) mentions: file:LINE[:COL], file(LINE[,COL]), file, line LINE[, column COL],
     # File "file", line LINE
